@@ -25,7 +25,7 @@ from mgmodel import classify, neg_of, is_one, is_this_member
 from featlib import render
 
 Rec = namedtuple("Rec", "org df sol cor rhs tmp")
-Q_ALL = frozenset((d, s) for d in "FS" for s in "CO")
+Q_ALL = frozenset((d, s) for d in "FS" for s in ("C", "CP", "Z", "O"))
 
 
 class Incomplete(Exception):
@@ -33,7 +33,9 @@ class Incomplete(Exception):
 
 
 def proj(r):
-    return ("F" if r.df == "F" else "S", "C" if r.sol in ("C", "Z") else "O")
+    # the solution is summarised as Z (belongs to the current rhs and is known to be zero), C (belongs to the current rhs) or O
+    # CP: current and produced by the level's pre-smoother (so the level HAS a pre-smoother)
+    return ("F" if r.df == "F" else "S", r.sol if r.sol in ("Z", "C", "CP") else "O")
 
 
 def entry_rec(org, q):
@@ -117,7 +119,7 @@ class HelperFlow:
             return "transfer.%s(%s,%s)" % (k, f(ev["fine"]), f(ev["coarse"]))
         if k in ("rest_send", "prol_recv"):
             return "transfer.%s(%s)" % (k, f(ev["fine"]))
-        if k in ("axpy", "copy"):
+        if k in ("axpy", "copy", "scale"):
             return "%s.%s(%s)" % (f(ev["dst"]), k, f(ev["src"]))
         if k == "format":
             return "%s.format()" % f(ev["dst"])
@@ -510,7 +512,7 @@ class HelperFlow:
                 self.chk("E8.sol-epoch", e, r.sol == "O", "solve from scratch (vec_sol := S(vec_rhs)): %s" % (
                     "rhs is new since the solution was started" if r.sol == "O" else "the solution already holds this cycle's work for the same rhs and is discarded"))
                 self.chk("E7.filter-rhs", e, r.rhs == "K", "rhs is %s" % ("filtered" if r.rhs == "K" else "restricted but not filtered"))
-                put(ci, r._replace(sol="C", df="S"))
+                put(ci, r._replace(sol="CP" if (s0 := ev.get("smoother")) and s0[0] == "smo" and s0[2] == "pre" else "C", df="S"))
             elif (cf, dfld) == ("cor", "def"):
                 need_def(ci, "smoother input")
                 put(ci, r._replace(cor="SM", tmp="N"))
@@ -632,6 +634,24 @@ class HelperFlow:
                 put(di, r._replace(df="F" if ok else "S"))
             else:
                 raise Incomplete("%s: axpy %s += %s" % (v.name, dfld, sf))
+        elif kind == "scale":
+            di, dfld = self.vslot(ev["dst"], "scale")
+            si, sf = self.vslot(ev["src"], "scale")
+            if di != si or (dfld, sf) != ("sol", "cor"):
+                raise Incomplete("%s: scale %s := a*%s" % (v.name, dfld, sf))
+            r = get(di)
+            if r.sol == "CP" and any(k_ == ("smo", ev["dst"][1], "pre") and val_ is False for k_, val_ in bools):
+                return []       # infeasible: the solution was produced by the pre-smoother, this path has established there is none
+            # sol := w*cor equals sol += w*cor only where the solution is known to be zero
+            self.chk("E7.filter-cor", e, r.cor != "PU", "correction written into the solution is %s" % ("filtered / smoothed" if r.cor != "PU" else "prolongated but not filter_cor-ed"))
+            self.chk("E8.sol-epoch", e, r.sol == "Z" and r.cor != "N",
+                     "the solution is overwritten by the scaled correction (vec_sol := w*vec_cor): %s" % (
+                         "it is known to be zero, so this equals the update sol += w*cor" if r.sol == "Z" and r.cor != "N" else
+                         ("the solution holds work of this cycle for the current rhs (pre-smoothing, or the iterate kept by a restriction without pre-smoothing on an inner peak level), which is discarded" if r.sol == "C" else
+                          "the solution is not known to be zero on this path")))
+            wd = strip(ev["alpha"]).get("d") if strip(ev["alpha"]).get("k") == "Ref" and strip(ev["alpha"]).get("dk") == "local" else None
+            ndf = ("P", wd) if (r.df == "F" and r.tmp == "AF" and wd is not None and r.sol == "Z") else "S"
+            put(di, r._replace(sol="C", df=ndf))
         elif kind == "dot":
             for o in (ev["a"], ev["b"]):
                 i, f = self.vslot(o, "dot")
@@ -813,7 +833,7 @@ class Composer:
         for st in exit_states:
             for case, regs in st.items():
                 top = regs[0]
-                bad = [q for q in top if q[1] != "C"]
+                bad = [q for q in top if q[1] not in ("C", "CP", "Z")]
                 self.evals += 1
                 self.results.append(("E8.sol-epoch", "%s/exit: sol(top)" % v.name, not bad,
                                      "the top-level solution handed to vec_cor %s" % ("belongs to the rhs of this application" if not bad else "may still belong to an older rhs"),
